@@ -77,3 +77,32 @@ Definition trace_of_script (e : env) (script_bytes : bytes) (items : list bytes)
     | Fail => Some (count_ops s, 0, false)
     end
   end.
+
+(* ---- a static bound for the multisig-key part of the opcode count ----
+   [cbl known s]: over all paths through [s], the keys counted by executed CHECKMULTISIG(VERIFY)s.
+   A CHECKMULTISIG directly preceded by a push counts the number that push leaves on the stack
+   ([known]); any other successfully executed CHECKMULTISIG counts at most 20 (consensus). *)
+Definition is_cms (o : opcode) : bool :=
+  match o with OP_CHECKMULTISIG | OP_CHECKMULTISIGVERIFY => true | _ => false end.
+Definition topn (s : stack) : N :=
+  match s with
+  | nb :: _ => match num_operand 4 nb with Some n => Z.to_N n | None => 0 end
+  | [] => 0
+  end.
+Definition next_known (i : instr) : option N :=
+  match i with
+  | IPush b => Some (topn [b])
+  | INum z => Some (topn [num_encode z])
+  | _ => None
+  end.
+Fixpoint cb_instr (known : option N) (i : instr) : N :=
+  match i with
+  | IOp o => if is_cms o then match known with Some n => n | None => 20 end else 0
+  | IIf _ thn els =>
+    let cl := fix cl (k : option N) (l : list instr) : N :=
+      match l with [] => 0 | j :: r => cb_instr k j + cl (next_known j) r end in
+    N.max (cl None thn) (match els with Some e => cl None e | None => 0 end)
+  | _ => 0
+  end.
+Fixpoint cbl (k : option N) (s : script) : N :=
+  match s with [] => 0 | i :: r => cb_instr k i + cbl (next_known i) r end.
